@@ -18,7 +18,7 @@ from .. import vf
 from . import bindcommon, envdiff
 
 ENVS = ("SONIC_USE_OPTDEC=1", "SONIC_USE_OPTDEC=1,SONIC_USE_FASTMAP=1")
-FAMS = ("bounds", "leaf", "mapkeys", "bigst", "rec", "deepst", "wrap1", "st1l", "st1w", "st2", "emb", "opts", "wrap2")
+FAMS = ("bounds", "ifptr", "leaf", "mapkeys", "bigst", "rec", "deepst", "wrap1", "st1l", "st1w", "st2", "emb", "opts", "wrap2")
 
 
 def details(ctx, dumps, ids, env, name):
